@@ -50,7 +50,8 @@ def _case(draw):
     forms = HTML_FORMS + (GP_FORMS if pos in GP_POSITIONS else [])
     if pos == "wap-text":
         forms = ["wap", "waphdr"]
-    return {"pos": pos, "payload": draw(payload_st), "form": draw(st.sampled_from(forms)), "n": draw(st.integers(0, 999))}
+    return {"pos": pos, "payload": draw(payload_st), "form": draw(st.sampled_from(forms)), "n": draw(st.integers(0, 999)),
+            "fill": draw(st.sampled_from([0, 0, 13]))}
 
 
 def strategy(tier):
@@ -89,10 +90,15 @@ def _fit(pos, p, fam):
     return p
 
 
-def _build(pos, v, n):
-    """tree spec + selector to request (latin-1 str) for value v in position pos"""
+def _build(pos, v, n, fill=0):
+    """tree spec + selector to request (latin-1 str) for value v in position pos; fill = number of ordinary entries that
+    precede the decorated one in the listing (WAP numbers only the first 12 links)"""
     spec = [["d/zz.txt", "f", "plain\n"]]
     sel = "/d"
+    fillmap = "".join("0Filler %02d\tzz.txt\n" % i for i in range(fill))
+    for i in range(fill):
+        if not pos.startswith("map-"):
+            spec.append(["d/A%02d.txt" % i, "f", "filler\n"])
     if pos == "selector-error":
         sel = "/d/nosuch-" + v
     elif pos == "url-redirect":
@@ -124,21 +130,21 @@ def _build(pos, v, n):
     elif pos == "linkfile-host":
         spec.append(["d/.links", "f", "Name=Far\nType=1\nPath=/x\nHost=%s\nPort=70\n" % v])
     elif pos == "map-desc":
-        spec.append(["d/gophermap", "f", "0%s\tzz.txt\n" % v])
+        spec.append(["d/gophermap", "f", fillmap + "0%s\tzz.txt\n" % v])
     elif pos == "map-sel":
-        spec.append(["d/gophermap", "f", "0Entry\t%s\n" % v])
+        spec.append(["d/gophermap", "f", fillmap + "0Entry\t%s\n" % v])
     elif pos == "map-url":
-        spec.append(["d/gophermap", "f", "hWeb\tURL:http://www.example.org/%s\n" % v])
+        spec.append(["d/gophermap", "f", fillmap + "hWeb\tURL:http://www.example.org/%s\n" % v])
     elif pos == "map-host":
-        spec.append(["d/gophermap", "f", "1Far\t/x\t%s\t70\n" % v])
+        spec.append(["d/gophermap", "f", fillmap + "1Far\t/x\t%s\t70\n" % v])
     elif pos == "wap-text":
         spec.append(["d/t.txt", "f", "first line\n%s\nlast line\n" % v])
         sel = "/d/t.txt"
     return spec, sel
 
 
-def _fetch(pos, v, n, form):
-    spec, sel = _build(pos, v, n)
+def _fetch(pos, v, n, form, fill=0):
+    spec, sel = _build(pos, v, n, fill)
     base, root = world.build(spec)
     try:
         cfg = drive.make_config(root, "shipped", **{"handlers.dir.DirHandler::cachetime": "0"})
@@ -203,10 +209,13 @@ def check_case(case, ctx):
         q = "\n".join((q if l.strip() else "") for l in p.splitlines())
         if p.endswith(("\n", "\r")):
             q += "\n"
-    rp = _fetch(pos, p, case["n"], form)
+    fill = case.get("fill", 0) if pos not in ("dirname", "subject", "wap-text", "selector-error", "url-redirect") else 0
+    rp = _fetch(pos, p, case["n"], form, fill)
     if rp is None:
         return []
-    rq = _fetch(pos, q, case["n"], form)
+    rq = _fetch(pos, q, case["n"], form, fill)
+    if fill:
+        ctx.label("with-13-fillers")
     ctx.label("pos:" + pos, "form:" + form)
     fails = []
     if rp.escaped is not None or [c for c in rp.exception_classes() if c != "FileNotFound"]:
